@@ -1,5 +1,6 @@
 import BddVerif.Lemmas.SerialIO
 import BddVerif.Lemmas.SerialValidate
+import BddVerif.Lemmas.SerialValidateComplete
 import BddVerif.Core.ApplyCanon
 /-!
 # C13 — deserialisers and `validate()` are safe on arbitrary input
@@ -133,6 +134,109 @@ theorem validate_total (A : Arr) : ∃ o, validate A = some o ∧ o.isPanic = fa
 theorem validate_wf (A : Arr) (h : validate A = some (.ok ())) : WFo A (numVars A) ∧ AllReachable A :=
   wfo_of_validate h
 
+/-! ## `validate`: exactly what is accepted, and which message for which first failing condition -/
+
+/-- **validate_ok_iff**: for EVERY array, `validate() == Ok(())` holds exactly when the array is well-formed by level
+    over the variable count stored in node 0 (`WFo`: both terminals exact, every decision node has its variable below
+    that count, both links in range and the variable strictly smaller than the variable of either child) and every
+    decision node is reachable from the root, the last node (`AllReachable`). Nothing else is checked: no
+    reducedness, no duplicate test, no node order; the two terminals need not be reachable. -/
+theorem validate_ok_iff (A : Arr) : validate A = some (.ok ()) ↔ WFo A (numVars A) ∧ AllReachable A := by
+  refine ⟨validate_wf A, fun ⟨hw, hall⟩ => ?_⟩
+  have hpos : 0 < A.size := by
+    rcases Nat.eq_zero_or_pos A.size with h0 | h0
+    · have := hw.zero; rw [Array.getElem?_eq_none (by omega)] at this; simp at this
+    · exact h0
+  by_cases h1 : A.size = 1
+  · rw [validate_one h1]; simp [hw.zero]
+  by_cases h2 : A.size = 2
+  · rw [validate_two h2]
+    have : Terms A := ⟨hw.zero, hw.one (by omega)⟩
+    simp [this]
+  have h3 : 3 ≤ A.size := by omega
+  have hc := (fromNodesChecks_iff_wfo A).mpr hw
+  refine validate_accept h3 ⟨hw.zero, hw.one (by omega)⟩ ?_ ?_ hall
+  · intro p nd hp hpn
+    obtain ⟨a, b, c, _, _⟩ := hc.inner p nd hp hpn
+    exact ⟨a, b, c⟩
+  · intro q hq hqs _
+    have hnd : A[q]? = some A[q] := by simp [hqs]
+    obtain ⟨_, _, _, ⟨lc, e2, o1⟩, ⟨hc', e3, o2⟩⟩ := hc.inner q A[q] hq hnd
+    exact ⟨A[q], lc, hc', hnd, e2, e3, o1, o2⟩
+
+/-- the refusals of `validate`, in the order in which the code tests them, each with its message -/
+def ValidateErr (A : Arr) (m : String) : Prop :=
+  (A.size = 0 ∧ m = "No nodes") ∨
+  (A.size = 1 ∧ ¬ A[0]? = some ⟨numVars A, 0, 0⟩ ∧ m = "Malformed false BDD.") ∨
+  (A.size = 2 ∧ ¬ Terms A ∧ m = "Malformed true BDD.") ∨
+  (3 ≤ A.size ∧ ¬ Terms A ∧ m = "Malformed terminal nodes.") ∨
+  (3 ≤ A.size ∧ Terms A ∧ RangeErr A m) ∨
+  (3 ≤ A.size ∧ Terms A ∧ RangeOk A ∧
+    (∃ q, 2 ≤ q ∧ q < A.size ∧ Reach A (A.size - 1) q ∧ ¬ OrderedAt A q) ∧ m = "Found broken child ordering") ∨
+  (3 ≤ A.size ∧ Terms A ∧ RangeOk A ∧
+    (∀ q, 2 ≤ q → q < A.size → Reach A (A.size - 1) q → OrderedAt A q) ∧ ¬ AllReachable A ∧
+    m = "BDD has unreachable nodes.")
+
+/-- every refusal listed in `ValidateErr` is what the model returns -/
+theorem validate_err_of (A : Arr) (m : String) (h : ValidateErr A m) : validate A = some (.err m) := by
+  rcases h with ⟨h0, rfl⟩ | ⟨h1, hz, rfl⟩ | ⟨h2, ht, rfl⟩ | ⟨h3, ht, rfl⟩ | ⟨h3, ht, hr⟩ | ⟨h3, ht, hr, hbad, rfl⟩ |
+    ⟨h3, ht, hr, hord, hun, rfl⟩
+  · exact validate_empty h0
+  · rw [validate_one h1]; simp [hz]
+  · rw [validate_two h2]; simp [ht]
+  · exact validate_bad_terms h3 ht
+  · exact validate_range_err h3 ht hr
+  · exact validate_order_err h3 ht hr hbad
+  · exact validate_unreachable h3 ht hr hord hun
+
+/-- the list is exhaustive: every array is accepted or falls under exactly one refusal -/
+theorem validate_exhaustive (A : Arr) : (WFo A (numVars A) ∧ AllReachable A) ∨ ∃ m, ValidateErr A m := by
+  by_cases h0 : A.size = 0
+  · exact .inr ⟨_, .inl ⟨h0, rfl⟩⟩
+  by_cases h1 : A.size = 1
+  · by_cases hz : A[0]? = some ⟨numVars A, 0, 0⟩
+    · refine .inl ((validate_ok_iff A).mp ?_)
+      rw [validate_one h1]; simp [hz]
+    · exact .inr ⟨_, .inr (.inl ⟨h1, hz, rfl⟩)⟩
+  by_cases h2 : A.size = 2
+  · by_cases ht : Terms A
+    · refine .inl ((validate_ok_iff A).mp ?_)
+      rw [validate_two h2]; simp [ht]
+    · exact .inr ⟨_, .inr (.inr (.inl ⟨h2, ht, rfl⟩))⟩
+  have h3 : 3 ≤ A.size := by omega
+  by_cases ht : Terms A
+  · rcases range_ok_or_err A with hr | ⟨m, hr⟩
+    · by_cases hbad : ∃ q, 2 ≤ q ∧ q < A.size ∧ Reach A (A.size - 1) q ∧ ¬ OrderedAt A q
+      · exact .inr ⟨_, .inr (.inr (.inr (.inr (.inr (.inl ⟨h3, ht, hr, hbad, rfl⟩)))))⟩
+      · have hord : ∀ q, 2 ≤ q → q < A.size → Reach A (A.size - 1) q → OrderedAt A q := by
+          intro q a b c
+          exact Classical.byContradiction fun hn => hbad ⟨q, a, b, c, hn⟩
+        by_cases hall : AllReachable A
+        · exact .inl ((validate_ok_iff A).mp (validate_accept h3 ht hr hord hall))
+        · exact .inr ⟨_, .inr (.inr (.inr (.inr (.inr (.inr ⟨h3, ht, hr, hord, hall, rfl⟩)))))⟩
+    · exact .inr ⟨m, .inr (.inr (.inr (.inr (.inl ⟨h3, ht, hr⟩))))⟩
+  · exact .inr ⟨_, .inr (.inr (.inr (.inl ⟨h3, ht, rfl⟩)))⟩
+
+/-- **validate_err_iff**: `validate()` returns `Err(m)` exactly under the first failing condition of the list, with the
+    message of that condition (for the range tests: the first decision node in index order that fails, and its first
+    failing field in the order variable, low link, high link) -/
+theorem validate_err_iff (A : Arr) (m : String) : validate A = some (.err m) ↔ ValidateErr A m := by
+  refine ⟨fun h => ?_, validate_err_of A m⟩
+  rcases validate_exhaustive A with hok | ⟨m', hm'⟩
+  · rw [(validate_ok_iff A).mpr hok] at h; simp at h
+  · have := validate_err_of A m' hm'
+    rw [this] at h
+    simp only [Option.some.injEq, Outcome.err.injEq] at h
+    rw [← h]; exact hm'
+
+/-- **validate_outcome**: together — `validate` always terminates, never panics, and its result is `Ok` or one of the
+    listed refusals -/
+theorem validate_outcome (A : Arr) :
+    validate A = some (.ok ()) ∨ ∃ m, validate A = some (.err m) ∧ ValidateErr A m := by
+  rcases validate_exhaustive A with hok | ⟨m, hm⟩
+  · exact .inl ((validate_ok_iff A).mpr hok)
+  · exact .inr ⟨m, validate_err_of A m hm, hm⟩
+
 /-! ## Consequences of well-formedness: evaluation terminates, operators accept -/
 
 /-- **wf_eval_terminates**: on a diagram that is well-formed by level, `eval_in` needs at most `n + 1` steps,
@@ -221,5 +325,43 @@ example : Normal ['|', '2', ',', '0', ',', '0', '|', '2', ',', '1', ',', '1', '|
 example : (parseText ['|', '3', '|']).isErr = true := by decide
 example : (parseText ['|', '3', ',', '4', '2', '9', '4', '9', '6', '7', '2', '9', '6', ',', '0', '|']).isErr = true := by decide
 example : (parseText ['|', '3', ',', '4', '2', '9', '4', '9', '6', '7', '2', '9', '5', ',', '0', '|']).isOk = true := by decide
+
+
+/-! ### every row of the refusal table is inhabited -/
+
+def errMsgIs (A : Arr) (m : String) : Bool :=
+  match validate A with
+  | some (.err m') => m' == m
+  | _ => false
+
+theorem validate_err_of_bool {A : Arr} {m : String} (h : errMsgIs A m = true) : ValidateErr A m := by
+  unfold errMsgIs at h
+  cases hv : validate A with
+  | none => simp [hv] at h
+  | some o =>
+    cases o with
+    | ok u => simp [hv] at h
+    | panic m' => simp [hv] at h
+    | err m' =>
+      simp only [hv, beq_iff_eq] at h
+      subst h
+      exact (validate_err_iff A m').mp hv
+
+example : ValidateErr #[] "No nodes" := validate_err_of_bool (by decide +kernel)
+example : ValidateErr #[⟨3, 1, 0⟩] "Malformed false BDD." := validate_err_of_bool (by decide +kernel)
+example : ValidateErr #[⟨3, 0, 0⟩, ⟨3, 0, 0⟩] "Malformed true BDD." := validate_err_of_bool (by decide +kernel)
+example : ValidateErr #[⟨2, 0, 0⟩, ⟨7, 1, 1⟩, ⟨0, 0, 1⟩] "Malformed terminal nodes." := validate_err_of_bool (by decide +kernel)
+example : ValidateErr #[⟨3, 0, 0⟩, ⟨3, 1, 1⟩, ⟨4, 0, 1⟩] "Found invalid variable" := validate_err_of_bool (by decide +kernel)
+example : ValidateErr #[⟨3, 0, 0⟩, ⟨3, 1, 1⟩, ⟨2, 5, 9⟩] "Found invalid low-link" := validate_err_of_bool (by decide +kernel)
+example : ValidateErr #[⟨3, 0, 0⟩, ⟨3, 1, 1⟩, ⟨2, 0, 5⟩] "Found invalid high-link" := validate_err_of_bool (by decide +kernel)
+/-- the first failing node decides, not the worst one -/
+example : ValidateErr #[⟨3, 0, 0⟩, ⟨3, 1, 1⟩, ⟨2, 0, 5⟩, ⟨9, 0, 1⟩] "Found invalid high-link" :=
+  validate_err_of_bool (by decide +kernel)
+example : ValidateErr exLoop "Found broken child ordering" := validate_err_of_bool (by decide +kernel)
+/-- a 2-cycle between the root and node 2 -/
+example : ValidateErr #[⟨2, 0, 0⟩, ⟨2, 1, 1⟩, ⟨1, 0, 3⟩, ⟨0, 2, 1⟩] "Found broken child ordering" :=
+  validate_err_of_bool (by decide +kernel)
+example : ValidateErr exUnreach "BDD has unreachable nodes." := validate_err_of_bool (by decide +kernel)
+example : WFo exOk (numVars exOk) ∧ AllReachable exOk := (validate_ok_iff exOk).mp exOk_valid
 
 end B.Props.C13
